@@ -8,12 +8,13 @@ use crate::RuleCore;
 
 use ast_grep_core::language::Language;
 
+#[cfg(not(feature = "verif-hooks"))]
+use std::collections::{HashMap, HashSet};
+
 #[cfg(feature = "verif-hooks")]
 use crate::verif_hooks::SMap as HashMap;
 #[cfg(feature = "verif-hooks")]
 use crate::verif_hooks::VecSet as HashSet;
-#[cfg(not(feature = "verif-hooks"))]
-use std::collections::{HashMap, HashSet};
 
 type RResult<T> = std::result::Result<T, RuleCoreError>;
 
